@@ -1,3 +1,113 @@
-(* C04 — placeholder replaced below once MgmtProofs is in place *)
-From Coq Require Import List.
-From PyCasbin Require Import Base Mgmt.
+(* C09 — with auto-save the adapter's store mirrors the in-memory policy. *)
+From Coq Require Import List NArith Bool.
+From PyCasbin Require Import Base Effect Policy PolicyProofs RoleGraph Mgmt MgmtProofs CallsProofs MirrorProofs.
+Import ListNotations.
+Local Open Scope N_scope.
+
+(* what the enforcer tells the adapter: exactly one call, the one matching the operation, iff the call
+   reports success and auto-save is on with an adapter attached; otherwise nothing *)
+Theorem C09_add_forwards_iff_changed : forall k s r,
+  let out := snd (step k s (OAdd PT_P r)) in
+  let changed := negb (has_policy (m_p s) r) in
+  o_val out = ok (vbool changed)
+  /\ (o_acalls out, o_wcalls out) = calls_if changed (use_adapter k s) (AAdd PT_P r) (notify k s (WAdd PT_P r) 2).
+Proof. exact step_add_p. Qed.
+Print Assumptions C09_add_forwards_iff_changed.
+
+Theorem C09_remove_forwards_iff_changed : forall k s r, NoDup (m_p s) ->
+  let out := snd (step k s (ORemove PT_P r)) in
+  let changed := has_policy (m_p s) r in
+  o_val out = ok (vbool changed)
+  /\ (o_acalls out, o_wcalls out) = calls_if changed (use_adapter k s) (ARemove PT_P r) (notify k s (WRemove PT_P r) 2).
+Proof. exact step_remove_p. Qed.
+Print Assumptions C09_remove_forwards_iff_changed.
+
+Theorem C09_batch_add_forwards_iff_changed : forall k s rs,
+  let out := snd (step k s (OAddMany PT_P rs)) in
+  let changed := batch_addable (m_p s) [] rs in
+  o_val out = ok (vbool changed)
+  /\ (o_acalls out, o_wcalls out) = calls_if changed (use_adapter k s) (AAddMany PT_P rs) (notify k s (WAddMany PT_P rs) 2).
+Proof. exact step_add_many_p. Qed.
+Print Assumptions C09_batch_add_forwards_iff_changed.
+
+Theorem C09_batch_remove_forwards_iff_changed : forall k s rs, NoDup (m_p s) ->
+  let out := snd (step k s (ORemoveMany PT_P rs)) in
+  let changed := forallb (has_policy (m_p s)) rs && nodupb rule_eqb rs in
+  o_val out = ok (vbool changed)
+  /\ (o_acalls out, o_wcalls out) = calls_if changed (use_adapter k s) (ARemoveMany PT_P rs) (notify k s (WRemoveMany PT_P rs) 2).
+Proof. exact step_remove_many_p. Qed.
+Print Assumptions C09_batch_remove_forwards_iff_changed.
+
+Theorem C09_update_forwards_iff_changed : forall k s o n, NoDup (m_p s) -> k_prio k = false ->
+  let out := snd (step k s (OUpdate o n)) in
+  let changed := has_policy (m_p s) o && negb (has_policy (m_p s) n) in
+  o_val out = ok (vbool changed)
+  /\ (o_acalls out, o_wcalls out) = calls_if changed (use_adapter k s) (AUpdate PT_P o n) (notify k s (WUpdatePolicy o n) 3).
+Proof. exact step_update_p. Qed.
+Print Assumptions C09_update_forwards_iff_changed.
+
+(* role-assignment calls forward exactly what their permission-rule twins forward (link upkeep adds nothing) *)
+Theorem C09_grouping_calls_forward_the_same : forall k s pt r,
+  let out := snd (g_add k s pt r) in let x := i_add k s pt r in
+  o_acalls out = snd (fst x) /\ o_wcalls out = snd x.
+Proof. exact g_add_calls. Qed.
+Print Assumptions C09_grouping_calls_forward_the_same.
+
+(* the mirror: over EVERY history of add / batch add / remove / batch remove / filtered remove / update /
+   batch update on a policy type, with "adapter told iff the call reports success", the rows a faithful
+   adapter holds for that type equal the in-memory rules (same order), the memory stays duplicate-free,
+   and rows of other policy types are never touched *)
+Theorem C09_mirror : forall pt ops st,
+  NoDup (fst st) -> db_rows pt (snd st) = fst st ->
+  let st' := fold_left (db_step pt) ops st in
+  db_rows pt (snd st') = fst st' /\ NoDup (fst st')
+  /\ forall q, (pt =? q) = false -> db_rows q (snd st') = db_rows q (snd st).
+Proof. exact mirror_history. Qed.
+Print Assumptions C09_mirror.
+
+(* save_policy stores exactly the in-memory policy (one save call: CallsProofs.step_save) *)
+Theorem C09_save_stores_memory : forall k s,
+  db_rows PT_P (all_rows k s) = m_p s /\ db_rows PT_G (all_rows k s) = m_g s /\ db_rows PT_G2 (all_rows k s) = m_g2 s.
+Proof. exact save_stores_memory. Qed.
+Print Assumptions C09_save_stores_memory.
+
+(* hence load_policy directly after such a history delivers exactly the rules already in memory *)
+Theorem C09_reload_after_mirror_is_identity : forall k s,
+  k_prio k = false ->
+  db_rows PT_P (m_db s) = m_p s -> db_rows PT_G (m_db s) = m_g s -> db_rows PT_G2 (m_db s) = m_g2 s ->
+  (k_g k = false -> m_g s = []) -> (k_g2 k = false -> m_g2 s = []) ->
+  exists p g g2, deliver k (m_db s) None [] [] [] = Ok (p, g, g2) /\ p = m_p s /\ g = m_g s /\ g2 = m_g2 s.
+Proof. exact reload_of_mirror_is_identity. Qed.
+Print Assumptions C09_reload_after_mirror_is_identity.
+
+(* queries, flag changes and clear_policy tell the adapter nothing *)
+Theorem C09_other_calls_are_silent : forall k s o,
+  match o with
+  | QEnforce _ | QEnforceEx _ | QPolicy _ | QFiltered _ _ _ | QHas _ _ | QRoles _ | QUsers _
+  | QRolesDom _ _ | QUsersDom _ _ | QAllSubjects | QAllObjects | QAllActions | QAllRoles
+  | QPermsForUser _ | QPermsForUserDom _ _ | OAutoSave _ | OAutoBuild _ | OAutoNotify _ | OEnable _ | OClear => True
+  | _ => False
+  end -> o_acalls (snd (step k s o)) = [] /\ o_wcalls (snd (step k s o)) = [].
+Proof. exact silent_calls. Qed.
+Print Assumptions C09_other_calls_are_silent.
+
+(* KNOWN FINDING C09/update-filtered-policies: update_filtered_policies is outside the mirror theorem
+   (db_step has no such operation) because the statement is FALSE for it — witness: nothing matches the
+   filter, the call reports False, yet the adapter has been told and now holds a rule memory lacks *)
+Definition k_acl : mkind := mkKind false false false false false AO true 0.
+Theorem C09_update_filtered_refuted :
+  exists s ns i vs,
+    let '(s', out) := step_db k_acl s (OUpdateFiltered ns i vs) in
+    o_val out = ok (vbool false) /\ o_acalls out <> [] /\ db_rows PT_P (m_db s') <> m_p s'.
+Proof.
+  exists (fst (step_db k_acl (init k_acl []) (OAdd PT_P [1003; 1008; 1011]))), [[1004; 1009; 1012]], 0%nat, [1005].
+  vm_compute. split; [reflexivity|]. split; discriminate.
+Qed.
+Print Assumptions C09_update_filtered_refuted.
+
+Example C09_example :
+  fold_left (db_step 0) [SAdd [1;2]; SAdd [1;2]; SAddMany [[3;4]; [5;6]]; SUpdate [1;2] [7;8];
+                         SRemoveMany [[3;4]; [9;9]]; SRemoveFiltered 0 [5]; SUpdateMany [[7;8]; [3;4]] [[1;1]; [2;2]]]
+            ([], [(1, [100; 101])])
+  = ([[1;1]; [2;2]], [(1, [100; 101]); (0, [1;1]); (0, [2;2])]).
+Proof. vm_compute. reflexivity. Qed.
